@@ -49,6 +49,25 @@ def units(rng, tier):
         cands = [C // 2, C // 2, C // 3, C // 2 + 1, max(1, C // 2 - 1), C, 1, 2, (2 * C) // 3, max(1, C // 4)] + [rng.randint(1, C) for _ in range(4)]
         vals = [rng.choice(cands) for _ in range(rng.randint(2, 10))]
         us.append({"kind": "bc_util", "params": {"fn": "lb", "C": C, "items": vals, "vals": vals}, "cmp": None, "family": "lower-bound-admissible", "group": 0})
+    # (1b) the building blocks of the search, called directly and compared with their Gallina models (the theorems C04_is_dominant_sound,
+    # C04_find_bin_completions_complete are about these models): dominance test, completion generator, dominance filter, pair finder
+    def desc(n, lo, hi):
+        return sorted((rng.randint(lo, hi) for _ in range(n)), reverse=True)
+    for _ in range(1500 if tier == "quick" else 15000):
+        hi = rng.choice([3, 6, 9, 12])
+        l1, l2 = desc(rng.randint(0, 3), 1, hi), desc(rng.randint(0, 4), 1, hi)
+        if rng.random() < 0.4 and l1:
+            # the second list is a refinement / perturbation of the first: close calls for the dominance test
+            l2 = sorted([max(1, x - rng.choice([0, 0, 1])) for x in l1] + ([rng.randint(1, 3)] if rng.random() < 0.6 else []), reverse=True)
+        us.append({"kind": "bc_util", "params": {"fn": "isdom", "l1": l1, "l2": l2, "items": l1 + l2, "vals": l1 + l2}, "cmp": "eq", "family": "blocks/is_dominant", "group": 0})
+    for _ in range(500 if tier == "quick" else 5000):
+        C = rng.choice([10, 12, 20, 30])
+        items = desc(rng.randint(2, 8), 1, max(1, (2 * C) // 3))
+        x = rng.randint(items[0], C)
+        us.append({"kind": "bc_util", "params": {"fn": "fbc", "x": x, "items": items, "C": C, "vals": items}, "cmp": "eq", "family": "blocks/find_bin_completions", "group": 0})
+        ls = [desc(rng.randint(1, 3), 1, 9) for _ in range(rng.randint(1, 5))]
+        ls.sort(key=lambda l: -sum(l))
+        us.append({"kind": "bc_util", "params": {"fn": "cfd", "lists": ls, "items": [v for l in ls for v in l], "vals": []}, "cmp": "eq", "family": "blocks/check_for_dominance", "group": 0})
     # (2) inputs on which best-fit-decreasing is NOT optimal, found by screening random instances with the model: here the answer
     # depends on the search, its dominance tests and its bounds really being right
     from harness import runner
@@ -118,6 +137,8 @@ def judge_requests(u, impl, model):
             return [("py", None, f"bin_completion(binsize={p['C']}, items={p['vals']}) did not complete: {impl['exc']}")]
         n = len(impl["bins"])
         return [("min_bins", [p["C"], p["vals"]], lambda r: None if r == n else f"bin_completion(binsize={p['C']}, items={p['vals']}) uses {n} bins, the minimum is {r}")] if len(p["vals"]) <= 11 else []
+    if u["kind"] == "bc_util" and p["fn"] != "lb":
+        return []          # compared with the model only
     if u["kind"] == "bc_util":
         if "exc" in impl:
             return [("py", None, f"lower_bound({p['C']}, {p['items']}) raised {impl['exc']}")]
